@@ -1088,6 +1088,112 @@ Proof.
 Qed.
 
 (* ------------------------------------------------------------------ *)
+(* both directions with half-close                                      *)
+
+Lemma dstep_dead p q l : forall s, d_alive s = false -> fold_left (dstep p q) l s = s.
+Proof.
+  induction l as [|e r IH]; intros s H; [reflexivity|]. cbn [fold_left].
+  assert (E : dstep p q s e = s) by (unfold dstep; rewrite H; reflexivity). rewrite E. apply IH, H.
+Qed.
+
+Lemma ups_app a b : ups (a ++ b) = ups a ++ ups b.
+Proof. apply flat_map_app. Qed.
+Lemma downs_app a b : downs (a ++ b) = downs a ++ downs b.
+Proof. apply flat_map_app. Qed.
+
+(* exactly what was written before the relay stops is delivered, in both directions *)
+Lemma duplex_gen p q l : forall s, d_alive s = true ->
+  d_up (fold_left (dstep p q) l s) = d_up s ++ ups (before_stop p q l) /\
+  d_down (fold_left (dstep p q) l s) = d_down s ++ downs (before_stop p q l).
+Proof.
+  induction l as [|e r IH]; intros s H; cbn [fold_left before_stop].
+  - cbn. rewrite !app_nil_r. split; reflexivity.
+  - unfold dstep at 2 4. rewrite H.
+    destruct e as [c| |c|]; cbn [stops].
+    + destruct (IH (mkDst true (d_up s ++ c) (d_down s) (d_beof s) (d_ceof s)) eq_refl) as [A B].
+      rewrite A, B. cbn [d_up d_down]. unfold ups, downs. cbn [flat_map app]. rewrite <- app_assoc. split; reflexivity.
+    + destruct p.
+      * rewrite dstep_dead by reflexivity. cbn. rewrite !app_nil_r. split; reflexivity.
+      * destruct (IH (mkDst true (d_up s) (d_down s) true (d_ceof s)) eq_refl) as [A B].
+        rewrite A, B. cbn [d_up d_down]. split; reflexivity.
+    + destruct (IH (mkDst true (d_up s) (d_down s ++ c) (d_beof s) (d_ceof s)) eq_refl) as [A B].
+      rewrite A, B. cbn [d_up d_down]. unfold ups, downs. cbn [flat_map app]. rewrite <- app_assoc. split; reflexivity.
+    + destruct q.
+      * rewrite dstep_dead by reflexivity. cbn. rewrite !app_nil_r. split; reflexivity.
+      * destruct (IH (mkDst true (d_up s) (d_down s) (d_beof s) true) eq_refl) as [A B].
+        rewrite A, B. cbn [d_up d_down]. split; reflexivity.
+Qed.
+
+Lemma duplex_spec p q l :
+  d_up (duplex_run p q l) = ups (before_stop p q l) /\ d_down (duplex_run p q l) = downs (before_stop p q l).
+Proof. unfold duplex_run. destruct (duplex_gen p q l dst0 eq_refl) as [A B]. rewrite A, B. split; reflexivity. Qed.
+
+(* never anything but a prefix of what was written *)
+Lemma before_stop_prefix p q l : exists rest, l = before_stop p q l ++ rest.
+Proof.
+  induction l as [|e r [rest IH]]; [exists []; reflexivity|]. cbn [before_stop].
+  destruct (stops p q e); [exists (e :: r); reflexivity|]. exists rest. cbn [app]. rewrite <- IH. reflexivity.
+Qed.
+
+Lemma duplex_prefix p q l :
+  (exists x, ups l = d_up (duplex_run p q l) ++ x) /\ (exists y, downs l = d_down (duplex_run p q l) ++ y).
+Proof.
+  destruct (duplex_spec p q l) as [A B]. destruct (before_stop_prefix p q l) as [rest E].
+  split; [exists (ups rest); rewrite A, <- ups_app, <- E|exists (downs rest); rewrite B, <- downs_app, <- E]; reflexivity.
+Qed.
+
+(* a side writes nothing after it has ended its own direction *)
+Fixpoint b_quiet_after_eof (l : list dev) : Prop :=
+  match l with [] => True | DBEof :: r => downs r = [] | _ :: r => b_quiet_after_eof r end.
+(* the client has written everything before the backend ends its direction *)
+Fixpoint c_done_before_beof (l : list dev) : Prop :=
+  match l with [] => True | DBEof :: r => ups r = [] | _ :: r => c_done_before_beof r end.
+
+(* copy: whatever the schedule - in particular when the client ends its direction first and
+   the backend answers afterwards, late, at length - the client receives everything the
+   backend wrote ... *)
+Lemma copy_down_complete l : b_quiet_after_eof l -> d_down (copy_duplex l) = downs l.
+Proof.
+  unfold copy_duplex. destruct (duplex_spec false true l) as [_ ->].
+  induction l as [|e r IH]; intros H; [reflexivity|].
+  destruct e; cbn [before_stop stops b_quiet_after_eof] in *.
+  - unfold downs in *. cbn [flat_map app]. apply IH, H.
+  - unfold downs in *. cbn [flat_map app]. apply IH, H.
+  - unfold downs in *. cbn [flat_map]. f_equal. apply IH, H.
+  - unfold downs in *. cbn [flat_map app]. symmetry. exact H.
+Qed.
+
+(* ... and the backend everything the client wrote before the backend ended its direction *)
+Lemma copy_up_complete l : c_done_before_beof l -> d_up (copy_duplex l) = ups l.
+Proof.
+  unfold copy_duplex. destruct (duplex_spec false true l) as [-> _].
+  induction l as [|e r IH]; intros H; [reflexivity|].
+  destruct e; cbn [before_stop stops c_done_before_beof] in *.
+  - unfold ups in *. cbn [flat_map]. f_equal. apply IH, H.
+  - unfold ups in *. cbn [flat_map app]. apply IH, H.
+  - unfold ups in *. cbn [flat_map app]. apply IH, H.
+  - unfold ups in *. cbn [flat_map app]. symmetry. exact H.
+Qed.
+
+(* the client's end of stream reaches the backend while the relay goes on *)
+Lemma copy_forwards_half_close pre :
+  d_alive (fold_left (dstep false true) pre dst0) = true ->
+  let s := fold_left (dstep false true) (pre ++ [DCEof]) dst0 in d_alive s = true /\ d_beof s = true.
+Proof.
+  intros H. cbv zeta. rewrite fold_left_app. cbn [fold_left].
+  set (t := fold_left (dstep false true) pre dst0) in *. unfold dstep. rewrite H. split; reflexivity.
+Qed.
+
+(* defects of the unchanged code (the model is faithful to them) *)
+Lemma copy_client_data_after_backend_eof_refuted :
+  exists l, b_quiet_after_eof l /\ d_up (copy_duplex l) <> ups l.
+Proof. exists [DB [1]%N; DBEof; DC [2]%N; DCEof]. split; [reflexivity|]. vm_compute. discriminate. Qed.
+
+Lemma ssh_half_close_refuted :
+  exists l, b_quiet_after_eof l /\ d_down (ssh_duplex l) <> downs l.
+Proof. exists [DC [1]%N; DCEof; DB [2]%N; DBEof]. split; [reflexivity|]. vm_compute. discriminate. Qed.
+
+(* ------------------------------------------------------------------ *)
 (* concrete messages used as witnesses                                  *)
 
 (* GET /first HTTP/1.1\r\nHost: a\r\nUser-Agent: c\r\n\r\n *)
